@@ -76,6 +76,31 @@ def pattern_cases(c, d, n):
                 ps = [path_for(g) for _ in range(3)] + [rnd.choice(paths_pool) for _ in range(3)]
                 f.write("glob\t%s\t%s\n" % (hx(g), ",".join(hx(p) for p in ps)))
                 kinds["glob"] = kinds.get("glob", 0) + 1
+            elif rnd.random() < 0.45:
+                # destinations: filepath.Clean / Dir / Join / Rel and NewTask (Cli/PathModel.v); mostly an input inside its root
+                pcs = ["a", "b", "src", "sub", ".", "..", "", ".x", ".a.json", "a.js", "..y", "...", "c d", "out"]
+                def gp():
+                    s = "/".join(rnd.choice(pcs) for _ in range(rnd.choice([0, 1, 1, 2, 2, 3, 5])))
+                    if rnd.random() < 0.2:
+                        s = "/" + s
+                    if rnd.random() < 0.2:
+                        s += "/"
+                    return s
+                plain = ["a", "src", "sub", ".x", ".a.json", "a.js", "b.css", "..y", "c d"]
+                def clean_path(k):
+                    return "/".join(rnd.choice(plain) for _ in range(k))
+                if rnd.random() < 0.6:
+                    k = rnd.choice([0, 1, 2])
+                    root = clean_path(k) or "."
+                    if rnd.random() < 0.2 and k:
+                        root = "/" + root
+                    rest = clean_path(rnd.choice([0, 1, 1, 2, 3]))
+                    inp = (root + "/" + rest if rest else root) if root != "." else (rest or ".")
+                    outp = rnd.choice(["out/", "../out/", ".", "./", "/tmp/o/", "out", "a/../b/", "../", "out//", ""])
+                else:
+                    root, inp, outp = gp(), gp(), gp()
+                f.write("path\t%s\t%s\t%s\n" % (hx(root), hx(inp), hx(outp)))
+                kinds["path"] = kinds.get("path", 0) + 1
             else:
                 ms = [rnd.choice(["*.js", "*.css", "a*", "*", "a?.js", "*.*"]) for _ in range(rnd.choice([0, 0, 1, 2]))]
                 fs = [rnd.choice("+-") + rnd.choice(["src/*/**", "src/foo/**", "**/a.js", "src/**", "*.css", "**", "src/*", "**/foo/**", "src/?oo/*"]) for _ in range(rnd.choice([0, 1, 2, 3]))]
@@ -90,13 +115,25 @@ def pattern_cases(c, d, n):
         return
     c.cov["tools"].append({"tool": "hook:TestVerifPattern", "evaluations": n, "histograms": {"pattern": kinds}})
     c.cov["evaluations"] += n
-    c.corr("Cli.compile_src / glob_matches / file_filter (glob patterns of --match / --include / --exclude) vs the real compilePattern (source of the regular expression it builds, and what Go's regexp matches) and fileFilter", d)
+    c.corr("Cli.compile_src / glob_matches / file_filter (glob patterns of --match / --include / --exclude) vs the real compilePattern (source of the regular expression it builds, and what Go's regexp matches) and fileFilter; Cli.PathModel (filepath.Clean / Dir / Join / Rel and the destination NewTask computes for an input below an output directory) vs the real functions", d)
     # a disagreement is searched for a failing input: the disagreeing pattern and paths become a scratch tree and an
     # invocation of the built command, judged by the reference of the documented rules
     exs = getattr(c, "corr_examples", None) or []
     unh = lambda h: "" if h == "-" else bytes.fromhex(h).decode("utf-8", "replace")
-    for k, exm in enumerate(exs[:12]):
+    for k, exm in enumerate(exs[:40]):
         f = exm["case"].split("\t")
+        if f[0] == "path":
+            # a destination disagreement: the input file named on the command line, written below the output directory
+            inp, outp = unh(f[2]), unh(f[3])
+            comps = inp.split("/")
+            if not inp or inp.startswith("/") or any(cc in ("", ".", "..") for cc in comps) or outp not in ("out/", ".", "./", "out", "out//"):
+                continue
+            w = os.path.join(c.outdir, "patwitness%d.json" % k)
+            json.dump({"mode": "fs", "tree": {inp: {"kind": "file", "data": "var a = 1 ;\n"}}, "argv": ["--type", "js", "-o", outp, inp]}, open(w, "w"))
+            c.tool("clifs", ["-mode", "fs", "-witness", w], sub="patsearch%d" % k, count=False)
+            if c.new_violations:
+                break
+            continue
         if f[0] == "glob":
             opts = ["--exclude", "**", "--include", unh(f[1])]
             paths = [unh(x) for x in f[2].split(",")]
@@ -149,7 +186,7 @@ def run(c):
     c.tool("clifs", ["-mode", "fs", "-seed", c.seed, "-tier", c.tier, "-n", n], sub="fs")
     c.replay_known(None)
     c.cov["trusted_base"] += [
-        "C19: proved = effect of a complete task on the file system (all payloads / write splits) and the bundle reader for all read sizes; task planning (flag parsing, createTasks, NewTask paths, filters, attribute preservation) is NOT modelled: it is compared by clifs -mode fs with a Go reference of the documented rules (search, not proof)",
+        "C19: proved = effect of a complete task on the file system (all payloads / write splits) and the bundle reader for all read sizes; filters (GlobModel) and the destination computation of NewTask (PathModel) are modelled, proved and tied through the verif test hook; the rest of task planning (flag parsing, which root createTasks derives, attribute preservation) is NOT modelled: it is compared by clifs -mode fs with a Go reference of the documented rules (search, not proof)",
         "C19: strace output trusted as the record of system calls; verif-tagged test hook cmd/minify/verif_concat_test.go drives the real concatFileReader",
     ]
     return c.finish(explanation="proof for the effect sequences and the bundle reader; search for task planning")
